@@ -594,6 +594,9 @@ func newWalked(siz int) *Walked {
 	if max < siz {
 		siz = max
 	}
+	if siz < 0 {
+		siz = 0
+	}
 	return &Walked{
 		Strides: make([]*Stride, 0, siz),
 	}
@@ -625,6 +628,10 @@ func (s *Spec) Walk(ctx context.Context, st *State, pendings []interface{}, c *C
 	// will surface later. Hopefully Spec.Compile will (1) have
 	// been called and (2) either verified the existence of an
 	// "error" node or addeded one.
+
+	if c == nil {
+		c = DefaultControl
+	}
 
 	walked := newWalked(c.Limit)
 
